@@ -296,3 +296,27 @@ B("C15", "replace pattern loses whitespace tolerance", REPL, 'REPLACE_RE = rb"(?
 B("C15", "span of replace from group 1", REPL, '            "vba.replace",\n            *match.span(),', '            "vba.replace",\n            *match.span(1),', "R4-span-labels")
 N("C15", "slices via a named helper", REPL, '            match.group(1)[1:-1].replace(match.group(2)[1:-1], match.group(3)[1:-1]),\n            "vba.replace",', '            unquote(match.group(1)).replace(unquote(match.group(2)), unquote(match.group(3))),\n            "vba.replace",', also=[dict(file=REPL, old="@decoder\ndef find_replace(", new="def unquote(s: bytes) -> bytes:\n    return s[1:-1]\n\n\n@decoder\ndef find_replace(")])
 N("C15", "explicit span in concat", CONC, "            match.start(),\n            match.end(),\n", "            *match.span(),\n")
+
+# ------------------------------------------------------------------ C10
+PATHF = D + "path.py"
+B("C10", "is_domain check dropped in find_domains", NET, "        if not is_domain(domain) or len(domain) < 7:\n", "        if len(domain) < 7:\n", "R1-validator-dominance")
+B("C10", "min length 7 dropped", NET, "        if not is_domain(domain) or len(domain) < 7:\n", "        if not is_domain(domain):\n", "R1-validator-dominance")
+B("C10", "email validates group 0", NET, "if is_domain(match.group(1))]", "if is_domain(match.group())]", "R1-validator-dominance")
+B("C10", "UNC host validated on a different value", PATHF, "                if is_domain(hostname):\n                    children.append(Node(\"network.domain\", hostname, \"\", 2, 2 + len(hostname)))", "                if is_domain(segments[2]):\n                    children.append(Node(\"network.domain\", hostname, \"\", 2, 2 + len(hostname)))", "R1-validator-dominance")
+B("C10", "is_ip check removed", NET, "        if not is_ip(ip):\n            continue\n", "", "R1-validator-dominance")
+B("C10", "url validated before trimming", NET, "        if not is_url(group):\n            continue\n        url, obfuscation", "        url, obfuscation", "R1-validator-dominance")
+B("C10", "DOMAIN_RE label class gains _", NET, '(?:[a-z0-9-]+\\.)+(?:xn--', '(?:[a-z0-9_-]+\\.)+(?:xn--', "R3-alphabets")
+B("C10", "ftp -> file in is_url", NET, 'split.scheme in (b"http", b"https", b"ftp"))', 'split.scheme in (b"http", b"https", b"file"))', "R2-validators")
+B("C10", "is_url accepts any netloc", NET, "return bool(split.scheme and split.hostname and split.scheme in", "return bool(split.scheme and split.netloc and split.scheme in", "R2-validators")
+B("C10", "~ dropped from the unreserved test", NET, 'byte in (b"-", b".", b"_", b"~"):', 'byte in (b"-", b".", b"_"):', "R4-percent")
+B("C10", "unreserved test admits /", NET, 'byte in (b"-", b".", b"_", b"~"):', 'byte in (b"-", b".", b"_", b"~", b"/"):', "R4-percent")
+B("C10", "percent label guard <=", NET, '"escape.percent" if len(normalized) < len(uri) else ""', '"escape.percent" if len(normalized) <= len(uri) else ""', "R4-percent")
+B("C10", "reserved escapes lower-cased", NET, "        return match.group(0).upper()\n", "        return match.group(0).lower()\n", "R4-percent")
+B("C10", "ip label guard inverted", NET, "        IP_OBF if compressed != ip else \"\",\n", "        IP_OBF if compressed == ip else \"\",\n", "R5-ip-label")
+B("C10", "ip value is the raw text", NET, "        IP_TYPE,\n        compressed,\n", "        IP_TYPE,\n        ip,\n", "R1-validator-dominance")
+B("C10", "is_domain does not upper-case the tld", NET, "return bool(name and tld.upper() in TOP_LEVEL_DOMAINS)", "return bool(name and tld in TOP_LEVEL_DOMAINS)", "R2-validators")
+B("C10", "is_domain accepts an empty name", NET, "return bool(name and tld.upper() in TOP_LEVEL_DOMAINS)", "return bool(tld.upper() in TOP_LEVEL_DOMAINS)", "R2-validators")
+B("C10", "network.ip built outside parse_ip", PATHF, "                    if is_domain(hostname):\n                        children.append(Node(\"network.domain\", hostname, \"\", 8, 8 + len(hostname)))", "                    children.append(Node(\"network.ip\", hostname, \"\", 8, 8 + len(hostname)))", "R1-validator-dominance")
+N("C10", "validator result bound to a variable first", NET, "        if not is_domain(domain) or len(domain) < 7:\n            continue\n", "        valid = is_domain(domain)\n        if not valid or len(domain) < 7:\n            continue\n")
+N("C10", "unreserved test rewritten with in", NET, 'byte in (b"-", b".", b"_", b"~"):', 'byte in b"-._~":')
+N("C10", "length test flipped", NET, "        if not is_domain(domain) or len(domain) < 7:\n", "        if 7 > len(domain) or not is_domain(domain):\n")
